@@ -4,6 +4,8 @@ import (
 	"bytes"
 	"encoding/binary"
 	"fmt"
+	"strings"
+	"time"
 
 	"go.nanomsg.org/mangos/v3"
 	"go.nanomsg.org/mangos/v3/protocol/rep"
@@ -37,15 +39,15 @@ func runRepScenario(c *Ctx, fl repFlavor, nops int) {
 	held := map[int]bool{}
 	next := 600
 	tag := 0
-	reqs := map[int]reqInfo{}      // request tag -> where it came from
+	reqs := map[int]reqInfo{} // request tag -> where it came from
 	ctxs := []int{0}
 	closedCtx := map[int]bool{}
-	lastReq := map[int]int{}       // ctx -> tag of the last request Recv returned (cooked)
-	lastHdr := map[int][]byte{}    // raw: header returned with the request
-	parkedRecv := map[int]int{}    // ctx -> call
+	lastReq := map[int]int{}    // ctx -> tag of the last request Recv returned (cooked)
+	lastHdr := map[int][]byte{} // raw: header returned with the request
+	parkedRecv := map[int]int{} // ctx -> call
 	callCtx := map[int]int{}
-	replyOf := map[int]reqInfo{}   // reply tag -> expected destination
-	replyDead := map[int]bool{}    // reply sent after its pipe had gone
+	replyOf := map[int]reqInfo{} // reply tag -> expected destination
+	replyDead := map[int]bool{}  // reply sent after its pipe had gone
 	rtag := 0
 	look := func() {
 		for _, ev := range splitEvents(lastObs(e)) {
@@ -129,6 +131,10 @@ func runRepScenario(c *Ctx, fl repFlavor, nops int) {
 			}
 			w := make([]byte, 4)
 			binary.BigEndian.PutUint32(w, uint32(c.R.U64())|0x80000000)
+			if c.R.Intn(6) == 0 {
+				// the id every REQ socket uses each time its 31-bit counter wraps: the request bit and nothing else
+				binary.BigEndian.PutUint32(w, 0x80000000)
+			}
 			words = append(words, w...)
 			reqs[tag] = reqInfo{p, words}
 			body := append(append([]byte{}, words...), byte(tag>>8), byte(tag))
@@ -226,6 +232,48 @@ func runRepScenario(c *Ctx, fl repFlavor, nops int) {
 	e.Finish()
 }
 
+// directed (cooked flavours): a reply blocked by back-pressure on the asker's pipe gives up at its send deadline while
+// the context has meanwhile received a newer request from another pipe: the newer request stays the pending one, and
+// its answer goes to the pipe (and with the routing header) of the newer request
+func runRepSendTimeoutScenario(c *Ctx, fl repFlavor) {
+	e := NewExec(c, "m.rep", fl.mk(), fl.name)
+	mkReq := func(word uint32, tag int) ([]byte, []byte) {
+		w := be32(word | 0x80000000)
+		return w, append(append([]byte{}, w...), byte(tag>>8), byte(tag))
+	}
+	e.SetOpt(0, mangos.OptionWriteQLen, "1", 1)
+	e.AddPipe(601)
+	e.AddPipe(602)
+	e.SetOpt(0, mangos.OptionSendDeadline, "300", 300*time.Millisecond)
+	e.Hold(601, true)
+	var lastSend int
+	// fill pipe 601's way out: one reply inside the held pipe, one in its queue, the next one blocks
+	for i := 1; i <= 3; i++ {
+		_, body := mkReq(uint32(0x100+i), i)
+		e.Inject(601, body)
+		e.Recv(0)
+		lastSend = e.Send(0, nil, []byte{'R', 0, byte(i)})
+	}
+	blocked := !strings.Contains(lastObs(e), fmt.Sprintf("ret:%d:", lastSend))
+	wB, bodyB := mkReq(0x222, 9)
+	e.Inject(602, bodyB)
+	e.Recv(0)
+	if blocked {
+		e.Op(fmt.Sprintf("expire %d", lastSend), func() { time.Sleep(420 * time.Millisecond) })
+	}
+	e.Send(0, nil, []byte{'R', 0, 9})
+	for _, ev := range splitEvents(lastObs(e)) {
+		if ev.kind == "tx" && len(ev.msg) == 3 && ev.msg[2] == 9 && (ev.pipe != 602 || !bytes.Equal(ev.hdr, wB)) {
+			c.Violate(fmt.Sprintf("%s: the reply to the request from pipe 602 (routing header %x) was handed to pipe %d with header %x — the path of an earlier request whose reply had timed out", fl.name, wB, ev.pipe, ev.hdr), e.Replay())
+		}
+	}
+	if blocked && !e.broken && !strings.Contains(lastObs(e), "tx:602:") {
+		c.Violate(fmt.Sprintf("%s: the reply to the request from pipe 602 was not handed to pipe 602 (observed: %s) after an earlier reply on the same context had timed out", fl.name, lastObs(e)), e.Replay())
+	}
+	e.Release(601, true)
+	e.Finish()
+}
+
 func runC05(c *Ctx) {
 	c.Rep.Rule = "random histories on real rep / respondent / xrep / xrespondent protocol instances: requests with 1-3 (occasionally 9) routing words of random content from 1-3 virtual pipes, Recv/Send on 1-3 contexts, slow and failing reply pipes, the requesting pipe closing at arbitrary moments; " +
 		"every operation is a trace line checked against the Lean machine and every transmitted reply against the request it answers; class = (operation, shape of the observable outcome)"
@@ -236,6 +284,11 @@ func runC05(c *Ctx) {
 	for i := 0; i < n; i++ {
 		for _, fl := range repFlavors {
 			runRepScenario(c, fl, 50)
+		}
+	}
+	for _, fl := range repFlavors {
+		if fl.cooked {
+			runRepSendTimeoutScenario(c, fl)
 		}
 	}
 }
